@@ -2,8 +2,8 @@ package main
 
 import (
 	"bytes"
-	"strings"
 	"fmt"
+	"strings"
 	"unicode/utf8"
 
 	"verif/ref"
